@@ -1,6 +1,7 @@
 package main
 
 import (
+	"regexp"
 	"os"
 	"sort"
 	"bytes"
@@ -83,7 +84,11 @@ func parseQLine(l string) qline {
 // Query builds the SMT-LIB text of the obligation. Only definitions and
 // assumptions connected (through shared symbols) to the goal are included;
 // dropping assumptions can only lose proofs, never create them.
-func (o *Obligation) Query(withModel bool) string {
+func (o *Obligation) Query(withModel bool) string { return o.query(withModel, false) }
+
+// query builds the SMT-LIB text; with dropQuant the universally quantified hypotheses are
+// replaced by their instances at the goal's skolem constants (a weaker, quantifier-free context).
+func (o *Obligation) query(withModel bool, dropQuant bool) string {
 	ex := o.ex
 	var b strings.Builder
 	if withModel {
@@ -155,8 +160,18 @@ func (o *Obligation) Query(withModel bool) string {
 	noslice := os.Getenv("GOCV_NOSLICE") != ""
 	for i, q := range lines {
 		if include[i] || noslice {
-			b.WriteString(q.text)
-			b.WriteByte('\n')
+			hasQ := !q.isDef && strings.Contains(q.text, "(forall ((")
+			if !(dropQuant && hasQ) {
+				b.WriteString(q.text)
+				b.WriteByte('\n')
+			}
+			// instantiate universally quantified hypotheses at the goal's skolem constants
+			if len(o.Skolems) > 0 && !q.isDef && strings.Contains(q.text, "(forall ((") {
+				for _, inst := range instantiate(q.text, o.instTerms(goalLine+" "+q.text)) {
+					b.WriteString(inst)
+					b.WriteByte('\n')
+				}
+			}
 		}
 	}
 	b.WriteString(goalLine + "\n")
@@ -223,6 +238,23 @@ func solveOne(o *Obligation, timeoutS int) {
 		if !o.Vacuity {
 			o.Status, o.Solver, o.Time = "unsat", "gocv-simplifier", 0
 			return
+		}
+	}
+	if len(o.Skolems) > 0 {
+		// stage 0: quantifier-free variant (hypotheses instantiated at the goal's skolems)
+		qf := o.query(false, true)
+		if !strings.Contains(qf, "(forall ((") {
+			t0 := timeoutS
+			if t0 > 30 {
+				t0 = 30
+			}
+			procSem <- struct{}{}
+			r0 := runSolver(context.Background(), solvers[0], qf, t0)
+			<-procSem
+			if r0.status == "unsat" {
+				o.Status, o.Solver, o.Time, o.Output = r0.status, r0.solver+"(qf-instances)", r0.dur, r0.out
+				return
+			}
 		}
 	}
 	q := o.Query(false)
@@ -310,7 +342,7 @@ func solveAll(obls []*Obligation, timeoutS int, workers int) {
 				continue
 			}
 		}
-		if o.ex == nil || os.Getenv("GOCV_NOBATCH") != "" {
+		if o.ex == nil || os.Getenv("GOCV_NOBATCH") != "" || len(o.Skolems) > 0 {
 			rest = append(rest, o)
 			continue
 		}
@@ -431,4 +463,252 @@ func modelFor(o *Obligation, timeoutS int) string {
 		return r.out
 	}
 	return ""
+}
+
+func isNameChar(d byte) bool {
+	return (d >= 'a' && d <= 'z') || (d >= 'A' && d <= 'Z') || (d >= '0' && d <= '9') || d == '_' || d == '$' || d == '.' || d == '!'
+}
+
+func replaceToken(s, name, repl string) string {
+	var b strings.Builder
+	i := 0
+	for {
+		j := strings.Index(s[i:], name)
+		if j < 0 {
+			b.WriteString(s[i:])
+			return b.String()
+		}
+		j += i
+		end := j + len(name)
+		before := j == 0 || !isNameChar(s[j-1])
+		after := end >= len(s) || !isNameChar(s[end])
+		b.WriteString(s[i:j])
+		if before && after {
+			b.WriteString(repl)
+		} else {
+			b.WriteString(name)
+		}
+		i = end
+	}
+}
+
+// instantiate produces, for an assertion line containing (forall ((x S)) BODY)
+// sub-terms, copies of the line in which the outermost such quantifier is
+// replaced by BODY[x := sk] for each skolem constant sk of sort S. Replacing a
+// universally quantified hypothesis by an instance only weakens it when the
+// quantifier occurs positively; lines where it occurs under a negation or in
+// an antecedent are skipped.
+func instantiate(line string, skolems []Term) []string {
+	const pat = "(forall (("
+	idx := strings.Index(line, pat)
+	if idx < 0 {
+		return nil
+	}
+	// polarity check: the quantifier must not sit under "(not " or in the first argument of "(=> "
+	if !positiveAt(line, idx) {
+		return nil
+	}
+	// parse binder
+	p := idx + len(pat)
+	q := strings.IndexByte(line[p:], ' ')
+	if q < 0 {
+		return nil
+	}
+	name := line[p : p+q]
+	sortStart := p + q + 1
+	// sort ends at the matching ")" of the binder list: "((name SORT))"
+	depth := 0
+	k := sortStart
+	for ; k < len(line); k++ {
+		if line[k] == '(' {
+			depth++
+		} else if line[k] == ')' {
+			if depth == 0 {
+				break
+			}
+			depth--
+		}
+	}
+	sortText := line[sortStart:k]
+	// after "))" comes a space and the body, up to the matching ")" of the forall
+	bodyStart := k + 3
+	if bodyStart >= len(line) {
+		return nil
+	}
+	depth = 0
+	m := bodyStart
+	for ; m < len(line); m++ {
+		if line[m] == '(' {
+			depth++
+		} else if line[m] == ')' {
+			if depth == 0 {
+				break
+			}
+			depth--
+		}
+	}
+	body := line[bodyStart:m]
+	if strings.HasPrefix(body, "(! ") {
+		// strip pattern annotation: (! BODY :pattern (...))
+		if pi := strings.LastIndex(body, " :pattern"); pi > 0 {
+			body = body[3:pi]
+		}
+	}
+	var out []string
+	for _, sk := range skolems {
+		if sk.Sort.String() != sortText {
+			continue
+		}
+		inst := line[:idx] + replaceToken(body, name, sk.S) + line[m+1:]
+		out = append(out, inst)
+		// nested quantifiers in the instance are instantiated as well
+		if !strings.Contains(sk.S, "(") {
+			out = append(out, instantiate(inst, skolems)...)
+		}
+	}
+	return out
+}
+
+// positiveAt reports whether position idx of an s-expression line is in a
+// positive position with respect to the top-level assert.
+func positiveAt(line string, idx int) bool {
+	// walk the enclosing operators from the outside in
+	type frame struct {
+		op  string
+		arg int
+	}
+	var stack []frame
+	i := 0
+	for i < idx {
+		c := line[i]
+		if c == '(' {
+			j := i + 1
+			for j < len(line) && line[j] != ' ' && line[j] != ')' && line[j] != '(' {
+				j++
+			}
+			stack = append(stack, frame{op: line[i+1 : j], arg: 0})
+			i = j
+			continue
+		}
+		if c == ')' {
+			if len(stack) > 0 {
+				stack = stack[:len(stack)-1]
+			}
+			if len(stack) > 0 {
+				// finished one argument of the parent
+			}
+			i++
+			continue
+		}
+		if c == ' ' {
+			if len(stack) > 0 {
+				stack[len(stack)-1].arg++
+			}
+			i++
+			continue
+		}
+		i++
+	}
+	pos := true
+	for _, f := range stack {
+		switch f.op {
+		case "assert", "and", "or", "forall", "!":
+		case "=>":
+			if f.arg <= 1 {
+				pos = !pos
+			}
+		case "not":
+			pos = !pos
+		case "ite":
+			if f.arg <= 1 {
+				return false
+			}
+		default:
+			return false
+		}
+	}
+	return pos
+}
+
+// explainModel asks the solver for the values of the symbols the goal is built from
+// (following definitions a few levels deep). Used for diagnostics and replay files.
+func explainModel(o *Obligation, timeoutS int) string {
+	q := o.query(true, false)
+	lines := strings.Split(q, "\n")
+	defs := map[string]string{}
+	for _, l := range lines {
+		if strings.HasPrefix(l, "(define-fun ") || strings.HasPrefix(l, "(declare-const ") {
+			var buf []string
+			sy := symbolsOf(l, buf)
+			if len(sy) > 0 {
+				defs[sy[0]] = l
+			}
+		}
+	}
+	goalLine := ""
+	for _, l := range lines {
+		if strings.HasPrefix(l, "(assert (not ") {
+			goalLine = l
+		}
+	}
+	seen := map[string]bool{}
+	var order []string
+	var buf []string
+	frontier := symbolsOf(goalLine, buf)
+	for depth := 0; depth < 4 && len(frontier) > 0 && len(order) < 80; depth++ {
+		var next []string
+		for _, s := range frontier {
+			if seen[s] {
+				continue
+			}
+			seen[s] = true
+			order = append(order, s)
+			if d, ok := defs[s]; ok && strings.HasPrefix(d, "(define-fun ") {
+				var b2 []string
+				next = append(next, symbolsOf(d, b2)[1:]...)
+			}
+		}
+		frontier = next
+	}
+	if len(order) == 0 {
+		return ""
+	}
+	var vals []string
+	for _, s := range order {
+		if d, ok := defs[s]; ok && !strings.Contains(d, "(Array ") {
+			vals = append(vals, s)
+		}
+	}
+	q = strings.Replace(q, "(get-model)\n", "(get-value ("+strings.Join(vals, " ")+"))\n", 1)
+	r := runSolver(context.Background(), solvers[0], q, timeoutS)
+	if r.status != "sat" {
+		return r.status
+	}
+	return r.out
+}
+
+var smallConstRe = regexp.MustCompile(`\(_ bv([0-9]+) 64\)`)
+
+// instTerms returns the terms at which quantified hypotheses are instantiated:
+// the goal's skolem constants and skolem +/- the small constants of the goal.
+func (o *Obligation) instTerms(goalLine string) []Term {
+	out := append([]Term{}, o.Skolems...)
+	seen := map[string]bool{}
+	var consts []string
+	for _, m := range smallConstRe.FindAllStringSubmatch(goalLine, -1) {
+		if len(m[1]) <= 4 && m[1] != "0" && !seen[m[1]] && len(consts) < 5 {
+			seen[m[1]] = true
+			consts = append(consts, m[1])
+		}
+	}
+	for _, sk := range o.Skolems {
+		if sk.Sort != BV(64) {
+			continue
+		}
+		for _, c := range consts {
+			out = append(out, Term{S: fmt.Sprintf("(bvadd %s (_ bv%s 64))", sk.S, c), Sort: BV(64)})
+			out = append(out, Term{S: fmt.Sprintf("(bvsub %s (_ bv%s 64))", sk.S, c), Sort: BV(64)})
+		}
+	}
+	return out
 }
